@@ -117,6 +117,90 @@ if E.Path.st_Expr.__module__ != __name__:
     E.Path.ev_Call = ev_Call
 
 
+# ---------------------------------------------------------------------------
+# int.from_bytes(data[a:a+k]) where the input may be too short: the slice has a symbolic length in 0..k.  The core model
+# needs a fixed length; here the path is split over the (at most 9) possible lengths first -- exact, no abstraction.
+# ---------------------------------------------------------------------------
+from .values import Obj, Sym  # noqa: E402
+
+_orig_ifb = MC.NATIVE_MODELS[int.from_bytes]
+
+
+def int_from_bytes(ex, b, *args, **kwargs):
+    v = ex.as_bytes_value(b) if models.is_byteslike(ex, b) else b
+    if isinstance(v, Sym) and v.k == 'bytes' and not ex.quant:
+        n = z3.Length(v.t)
+        if E.conc_int(n) is None and ex.proves(n <= 8):
+            k = ex.decide([n == i for i in range(9)], 'int.from_bytes length')
+            ex.add_def(n == k)
+    return _orig_ifb(ex, b, *args, **kwargs)
+
+
+if getattr(_orig_ifb, '__module__', '') != __name__:
+    MC.NATIVE_MODELS[int.from_bytes] = int_from_bytes
+
+
+# ---------------------------------------------------------------------------
+# `cls.__new__(cls)` written out in repository code (alternative constructors such as UUID.from_bytes): a fresh instance
+# of the repository class without running __init__, like instantiate_repo_class does before calling __init__
+# ---------------------------------------------------------------------------
+def object_new(ex, cls, *args, **kwargs):
+    if isinstance(cls, type) and cls.__module__.startswith('bumble') and MC.class_lookup(cls, '__new__')[0] in (object, None):
+        return ex.alloc(Obj(cls, {}, ex.cfg.class_model_for(cls)))
+    raise E.Unsupported(f'object.__new__({cls!r})')
+
+
+MC.NATIVE_MODELS[object.__new__] = object_new
+
+
+# ---------------------------------------------------------------------------
+# `[f(i) for i in range(a, b, step)]` with symbolic bounds (ATT "set of handles": one 16-bit read per two payload bytes).
+# A finite range terminates by construction; the element expression is evaluated once for an ARBITRARY member i of the
+# range: every exception some iteration can raise is an exceptional path of the comprehension (over-approximation: the
+# real one is raised by the first such i), the normal result is a list of the right length with unconstrained elements.
+# ---------------------------------------------------------------------------
+from .values import Frame  # noqa: E402
+
+_orig_comprehension = E.Path.comprehension
+
+
+def comprehension(self, elt, gens, node):
+    if len(gens) == 1 and not gens[0].ifs and isinstance(gens[0].target, ast.Name) and not self.quant and not self.spec_mode:
+        saved_pos = (self.pos, len(self.decisions), len(self.pc))
+        it = None
+        if isinstance(gens[0].iter, ast.Call) and isinstance(gens[0].iter.func, ast.Name) and gens[0].iter.func.id == 'range':
+            it = self.eval(gens[0].iter)
+        if isinstance(it, E.SymRange) and isinstance(models.plain(it.step), int) and models.plain(it.step) > 0:
+            step = models.plain(it.step)
+            lo, hi = E.zint(it.start), E.zint(it.stop)
+            if not self.branch(E.mk_bool(lo < hi)):
+                return []
+            i = self.fresh_sym('int', 'comp.i')
+            self.assume(E.mk_bool(z3.And(i.t >= lo, i.t < hi, (i.t - lo) % step == 0)))
+            frame = self.alloc(Frame())
+            saved = self.scope
+            self.scope = [frame] + list(self.scope)
+            try:
+                self.assign(gens[0].target, i)
+                v = self.eval(elt)
+            finally:
+                self.scope = saved
+            kind = self.kind_of(v)
+            if kind not in ('int', 'bool', 'bytes'):
+                raise E.Unsupported(f'comprehension over a symbolic range with elements of kind {kind!r}')
+            self.abstraction_used = True
+            r = self.fresh_sym(('seq', kind), 'comp')
+            self.add_def(z3.Length(r.t) == (hi - lo + (step - 1)) / step)
+            return r
+        if it is not None and saved_pos != (self.pos, len(self.decisions), len(self.pc)):
+            raise E.Unsupported('comprehension over range(): evaluating the range forked the path')
+    return _orig_comprehension(self, elt, gens, node)
+
+
+if E.Path.comprehension.__module__ != __name__:
+    E.Path.comprehension = comprehension
+
+
 import os as _os  # noqa: E402
 
 if _os.environ.get('PYVC_DEBUG_WHY'):
